@@ -85,7 +85,7 @@ class NetlistSimplifyMixin:
         along the chain (series)."""
 
         node_map = self.node_map
-        group = self.cg.in_series(names[0]) if series else names
+        group = (set(self.cg.in_series(names[0])) | set(names)) if series else names
         ends = dict((name, [node_map[n] for n in
                             self.elements[name].node_names[0:2]])
                     for name in group)
